@@ -174,6 +174,9 @@ Fixpoint remove_nat (x : nat) (l : list nat) : list nat :=
 Fixpoint mem_nat (x : nat) (l : list nat) : bool :=
   match l with [] => false | y :: r => Nat.eqb x y || mem_nat x r end.
 
+Definition sub_ended (s : st) (i : nat) : bool :=
+  match get_sub s i with Some e => s_present e && s_flag e | None => false end.
+
 Definition set_call (s : st) (n : nat) (p : apc) : st := set_calls s (upd (calls s) n (fun _ => p)).
 
 Definition read_enabled (s : st) : bool :=
@@ -260,7 +263,9 @@ Definition step_call (s : st) (n : nat) (choice : nat) (fault : bool) : option s
         let s0 := if fault then s else push_frame s (WComplete choice) in
         let (s1, known) := map_unsubscribe s0 choice in
         let err' := err || fault || negb known in
-        let rest := remove_nat choice (close_collected s) in
+        (* UnsubscribeAll goes on to the next collected id that has not ended meanwhile
+           (Unsubscribe returns at once, writing nothing, for an ended subscription) *)
+        let rest := filter (fun k => negb (sub_ended s1 k)) (remove_nat choice (close_collected s)) in
         let s2 := set_collected s1 rest in
         Some (set_call s2 n (match rest with [] => ACloseWrite err' | _ => ACloseUnsub err' end))
       else None
@@ -283,18 +288,35 @@ Definition record_sent (e : sub) (p : N) : sub :=
   {| s_present := s_present e; s_flag := s_flag e; s_closes := s_closes e;
      s_delivered := s_delivered e; s_sent := s_sent e ++ [p] |}.
 
+Definition norm_id (s : st) (i : option nat) : option nat :=
+  match i with
+  | Some k => if Nat.ltb k (List.length (subs s)) then Some k else None
+  | None => None
+  end.
+Definition norm_frame (s : st) (f : sframe) : sframe :=
+  match f with
+  | FData i p => FData (norm_id s i) p
+  | FBad i => FBad (norm_id s i)
+  | FComplete i => FComplete (norm_id s i)
+  | FGarbage => FGarbage
+  end.
+
 Definition step (s : st) (l : label) : option st :=
   match l with
   | LCallSub =>
       let i := List.length (subs s) in
       Some (set_calls (set_subs s (subs s ++ [sub0])) (calls s ++ [ASubWrite i]))
-  | LCallUnsub i => Some (set_calls s (calls s ++ [AUnsubWrite i]))
+  | LCallUnsub i =>
+      (* Unsubscribe returns nil at once, writing nothing, when the subscription has already ended *)
+      Some (set_calls s (calls s ++ [if sub_ended s i then ADone true else AUnsubWrite i]))
   | LCallClose =>
       let ids := active_ids s in
       Some (set_collected (set_calls s (calls s ++ [match ids with [] => ACloseWrite false | _ => ACloseUnsub false end])) ids)
   | LStep TReader _ fault => step_reader s fault
   | LStep (TCall n) choice fault => step_call s n choice fault
-  | LServer f =>
+  | LServer f0 =>
+      (* ids are fresh uuids: a frame can only name a subscription that already exists *)
+      let f := norm_frame s f0 in
       let s1 := set_inbound s (inbound s ++ [f]) in
       match f with
       | FData (Some i) p => Some (set_subs s1 (upd (subs s1) i (fun e => record_sent e p)))
